@@ -82,6 +82,10 @@ T_E == { G("prepare_all", <<>>), G("measure_all", <<>>), G("X", <<QI("q", 0)>>) 
 T_E1 == T_E \cup { G("m", <<QI("q", 1)>>) }
 O_E == { OSeq, OPar, OLoop(I0, FALSE), OLoop(I2, FALSE), OLoop(Let("t"), FALSE), OLoop(I1, FALSE), OSub(I1) }
 
+\* loops and blocks around section boundaries (deep, two-gate alphabet)
+T_PM == { G("prepare_all", <<>>), G("measure_all", <<>>) }
+O_PM == { OSeq, OPar, OLoop(I2, FALSE), OLoop(I2, TRUE), OLoop(I0, FALSE) }
+
 \* ---------------------------------------------------------------- execution: gates (C03)
 H_G == { Hdr(<<DLet("k", I1), DLet("j", I2)>>, <<DReg("q", I3), DSlice("r", "q", I2, I0, NumI(-1)), DIndex("s", "q", I1)>>, <<>>, ExactGates) }
 M_G == << MD("m", <<"x", "y", "p">>, {"seq"}, { G("CX", <<Par("x"), Par("y")>>), G("R", <<Par("y"), Par("p")>>) }, {}, 2) >>
@@ -105,4 +109,20 @@ M_P == << MD("m", <<"x">>, {"seq"}, { G("X", <<Par("x")>>), G("CX", <<Par("x"), 
 T_P == { G("X", <<QI("q", 0)>>), G("X", <<QI("q", 1)>>), G("CX", <<QI("q", 1), QI("q", 2)>>), G("X", <<QI("r", 0)>>),
          G("m", <<QI("q", 2)>>), G("I_X", <<QI("q", 0)>>), G("H", <<QI("r", 1)>>) }
 O_P == { OSub(I1), OPar, OSeq }
+
+\* ---------------------------------------------------------------- C01 / C17 / C20: everything the text can say
+FE6 == NumF("0.000001", "1e-06", 0, FALSE)
+FBIG == NumF("10000000000000000.0", "10000000000000000", 0, FALSE)
+FNEG == NumF("-2.5", "-2.5", 0, FALSE)
+INEG == NumI(-3)
+H_R == { Hdr(<<DLet("a", I1), DLet("n", NumI(4)), DLet("y", FE6), DLet("w", FNEG)>>,
+             <<DReg("q", Let("n")), DSlice("r", "q", Let("a"), Let("n"), I2), DIndex("s", "q", Let("a")), DWhole("v", "r")>>,
+             <<>>, <<>>),
+         Hdr(<<DLet("a", I1), DLet("n", NumI(4)), DLet("y", FBIG), DLet("w", INEG)>>,
+             <<DReg("q", NumI(4)), DSlice("r", "q", None, I3, None), DIndex("s", "r", I0), DSlice("v", "q", I1, None, I2)>>,
+             <<"mypulses.sub">>, <<>>) }
+M_R == << MD("m", <<"x", "p">>, {"seq", "par"}, { G("g", <<Par("x"), Par("p")>>), G("h", <<Qb("q", Par("p"))>>) }, { OSub(Let("a")) }, 1) >>
+T_R == { G("g", <<QI("q", 0), F15>>), G("g", <<QAl("s"), Let("y")>>), G("h", <<QI("r", 1)>>), G("g", <<QI("v", 0), FE6>>),
+         G("m", <<QI("q", 2), I2>>), G("k", <<FNEG, INEG, FBIG>>) }
+O_R == { OSeq, OPar, OLoop(Let("a"), FALSE), OLoop(I3, TRUE), OSub(I1), OSub(NumI(5)), OSub(Let("n")) }
 =============================================================================
